@@ -221,6 +221,26 @@ func c12Run(cfg c12Config, kv []string) explore.Result {
 	if sa, ok := bl["session_authorization"]; ok && sa != seen.user {
 		res.Fail("session-authorization", fmt.Sprintf("session_authorization = %q but the connecting user is %q", sa, seen.user))
 	}
+	// ... and they stay that way: after more than a buffer granule of later traffic the handler still sees them
+	for _, n := range []int{3000, 2000} {
+		one.Step(pgproto.Query(strings.Repeat("x", n)))
+	}
+	late := &c12Seen{}
+	*late = *seen
+	out, _ = one.Step(pgproto.Query("q"))
+	if harness.Kinds(out) == "CZ" {
+		for k, v := range seen.client {
+			if !sent[string(k)][v] {
+				res.Fail("client-parameters", fmt.Sprintf("after 5 KB of later traffic the handler sees client parameter %q=%q which the client did not send (sent %v)", k, v, kv))
+			}
+		}
+		if len(seen.client) != len(sent) {
+			res.Fail("client-parameters", fmt.Sprintf("after 5 KB of later traffic the handler sees %d client parameters, %d were sent: %v", len(seen.client), len(sent), seen.client))
+		}
+		if u := string(seen.client["user"]); seen.user != u || (len(users) > 0 && !containsStr(users, seen.user)) {
+			res.Fail("authenticated-username", fmt.Sprintf("after later traffic AuthenticatedUsername = %q (sent users %v)", seen.user, users))
+		}
+	}
 	res.Outcome = "negotiated"
 	res.Key = cfg.Name + strings.Join(kv, "\x00")
 	state := fmt.Sprintf("auth=%v", cfg.Auth)
